@@ -172,6 +172,9 @@ def ssphase_rule(P, R):
 
 
 def run(P, R, tier):
+    from .c04 import _Renamed
+    from . import c10 as C10
+    C10.casekey_rule(P, _Renamed(R, "C10.casekey", "C03.casekey"))
     onecomp_rule(P, R)
     ssphase_rule(P, R)
     from . import c20 as C20
